@@ -27,14 +27,19 @@ def project(hs):
                 actfun=lv(hs.actfun), deactfun=lv(hs.deactfun))
 
 
-def render_marks(call, how):
-    """call['marks']: per level list of cells -> dict level -> container of tuples."""
+def render_marks(call, how, hs=None):
+    """call['marks']: per level list of cells -> dict level -> container of tuples.
+    how = 'alias': where a whole level is marked, pass the LIVE set returned by hs.active_cells(l) itself."""
     out = {}
     for l, cells in enumerate(call['marks']):
         if not cells:
             continue
         cells = [tuple(c) for c in cells]
-        out[l] = {'set': set, 'list': list, 'tuple': tuple}[how](cells)
+        if how == 'alias':
+            live = hs.active_cells(l) if l < hs.numlevels else set()
+            out[l] = live if set(cells) == set(live) else set(cells)
+        else:
+            out[l] = {'set': set, 'list': list, 'tuple': tuple}[how](cells)
     return out
 
 
@@ -53,7 +58,7 @@ def replay_history(cfg, hist, containers=('set',), truncate=False, bdspecs=None,
     events = []
     for n, call in enumerate(hist):
         how = containers[n % len(containers)]
-        marks = render_marks(call, how)
+        marks = render_marks(call, how, hs)
         pre = project(hs)
         try:
             ret = hs.refine(marks, truncate=True) if truncflag else hs.refine(marks)
